@@ -1235,7 +1235,12 @@ func (r *Runtime) flattenIntoArray(target, source *Object, sourceLen, start, dep
 			}
 			if elementArray != nil {
 				elementLen := toLength(elementArray.self.getStr("length", nil))
-				targetIndex = r.flattenIntoArray(target, elementArray, elementLen, targetIndex, depth-1, nil, nil)
+				// an array that contains itself recurses for ever with depth Infinity
+				r.vm.enterNative()
+				func() {
+					defer r.vm.leaveNative()
+					targetIndex = r.flattenIntoArray(target, elementArray, elementLen, targetIndex, depth-1, nil, nil)
+				}()
 			} else {
 				if targetIndex >= maxInt-1 {
 					panic(r.NewTypeError("Invalid array length"))
